@@ -60,10 +60,20 @@ def run_cvc5(smt2, timeout_ms):
 def discharge(ob, timeout_ms=20000, seed=0, both=False):
     """returns dict(status=proved|refuted|unknown, backend, time, model?)"""
     t0 = time.time()
+    if ob.kind == 'xcheck':
+        timeout_ms = min(timeout_ms, 4000)  # an optional sample: not worth the full budget when no model is found quickly
     s = _solver(timeout_ms, seed)
     for p in ob.pc:
         s.add(p)
     if ob.expect_sat:
+        # bounded universal quantifiers over sequences: the solvers answer `unknown` on satisfiability; a model of
+        # finitely many instances whose ranges it covers is a model (tried first: cheap when it applies)
+        bm = bounded_instance_model(ob.pc, min(timeout_ms, 8000), seed)
+        if bm is not None:
+            out = {'status': 'proved', 'backend': 'z3-bounded-instances', 'time': time.time() - t0, 'detail': 'cover sat'}
+            if ob.kind == 'xcheck':
+                out['model'] = bm
+            return out
         from .engine import has_quantifier
 
         if any(has_quantifier(p) for p in ob.pc):
@@ -176,6 +186,203 @@ def discharge(ob, timeout_ms=20000, seed=0, both=False):
             return out
         return {'status': 'unknown', 'backend': 'z3+cvc5', 'time': time.time() - t0, 'detail': f'z3: {s2.reason_unknown()}; cvc5: {msg or v}'}
     return res
+
+
+def _match_bounded_forall(f):
+    """f == ForAll([i], Implies(And(lo <= i, i < hi, ...), body)) (the shape seqspec._quant builds, possibly rewritten by
+    the simplifier to Or(Not(And(..)), body)) -> (lo, hi) else None"""
+    if not (z3.is_quantifier(f) and f.is_forall() and f.num_vars() == 1 and f.var_sort(0) == z3.IntSort()):
+        return None
+    b = f.body()
+    cands = []
+    if z3.is_app(b) and b.decl().kind() == z3.Z3_OP_IMPLIES:
+        cands.append(b.arg(0))
+    elif z3.is_app(b) and b.decl().kind() == z3.Z3_OP_OR:
+        for c in b.children():
+            if z3.is_app(c) and c.decl().kind() == z3.Z3_OP_NOT:
+                cands.append(c.arg(0))
+    for g in cands:
+        r = _range_of_guard(g)
+        if r is not None:
+            return r
+    return None
+
+
+def _range_of_guard(g):
+    conj = g.children() if z3.is_app(g) and g.decl().kind() == z3.Z3_OP_AND else [g]
+    lo = hi = None
+    for c in conj:
+        neg = False
+        if z3.is_app(c) and c.decl().kind() == z3.Z3_OP_NOT:
+            neg, c = True, c.arg(0)
+        if not z3.is_app(c) or c.num_args() != 2:
+            continue
+        k = c.decl().kind()
+        a0, a1 = c.arg(0), c.arg(1)
+        if not neg:
+            if k == z3.Z3_OP_LE and z3.is_var(a1) and lo is None and not _has_var(a0):
+                lo = a0  # lo <= i
+            elif k == z3.Z3_OP_GE and z3.is_var(a0) and lo is None and not _has_var(a1):
+                lo = a1  # i >= lo
+            elif k == z3.Z3_OP_LT and z3.is_var(a0) and hi is None and not _has_var(a1):
+                hi = a1  # i < hi
+            elif k == z3.Z3_OP_GT and z3.is_var(a1) and hi is None and not _has_var(a0):
+                hi = a0  # hi > i
+        else:
+            if k == z3.Z3_OP_LE and z3.is_var(a1) and hi is None and not _has_var(a0):
+                hi = a0  # not (hi <= i)
+            elif k == z3.Z3_OP_GE and z3.is_var(a0) and hi is None and not _has_var(a1):
+                hi = a1  # not (i >= hi)
+    if lo is None or hi is None:
+        return None
+    return lo, hi
+
+
+def _has_var(t):
+    stack = [t]
+    while stack:
+        x = stack.pop()
+        if z3.is_var(x):
+            return True
+        if z3.is_app(x):
+            stack.extend(x.children())
+    return False
+
+
+def _top_conjuncts(f):
+    if z3.is_app(f) and f.decl().kind() == z3.Z3_OP_AND:
+        out = []
+        for c in f.children():
+            out.extend(_top_conjuncts(c))
+        return out
+    return [f]
+
+
+def bounded_instance_model(pc, timeout_ms, seed=0, window=5, max_len=3):
+    """satisfiability of a path condition with bounded universal quantifiers (`forall(lo, hi, f)` of the clause
+    language), which the solvers answer `unknown` on over sequences: every such quantifier is replaced by its instances
+    at -1 .. window, all sequence constants are limited to max_len elements, and a model of that *weaker* formula is
+    accepted only if the range [lo, hi) of every replaced quantifier lies inside the instantiated window in the model
+    (then every instance that matters was asserted, so the model satisfies the original formula).  Returns the
+    model or None."""
+    flat = []
+    for p in pc:
+        flat.extend(_top_conjuncts(p))
+    qs = []
+    rest = []
+    for f in flat:
+        if z3.is_quantifier(f):
+            m = _match_bounded_forall(f)
+            if m is None:
+                return None
+            qs.append((f, m[0], m[1]))
+        else:
+            # a quantifier below a connective: give up (polarity unknown)
+            stack = [f]
+            seen = set()
+            while stack:
+                t = stack.pop()
+                if t.get_id() in seen:
+                    continue
+                seen.add(t.get_id())
+                if z3.is_quantifier(t):
+                    return None
+                if z3.is_app(t):
+                    stack.extend(t.children())
+            rest.append(f)
+    if not qs:
+        return None
+    consts = {}
+    seen = set()
+    stack = list(rest) + [f.body() for f, _, _ in qs]
+    while stack:
+        t = stack.pop()
+        if t.get_id() in seen:
+            continue
+        seen.add(t.get_id())
+        if z3.is_const(t) and t.decl().kind() == z3.Z3_OP_UNINTERPRETED and t.sort().kind() == z3.Z3_SEQ_SORT:
+            consts[t.get_id()] = t
+        if z3.is_app(t):
+            stack.extend(t.children())
+    # make the sequences explicit: every sequence constant becomes a concatenation of fresh elements -- n of them
+    # (n = 1, 0, 2), none for constants that a conjunct says are empty, the same number for constants a conjunct says
+    # have equal lengths -- so that the instantiated problem is (almost) ground; a model of it is a model of the original
+    ids = list(consts)
+    parent = {i: i for i in ids}
+
+    def find(i):
+        while parent[i] != i:
+            parent[i] = parent[parent[i]]
+            i = parent[i]
+        return i
+
+    def len_of_const(t):
+        if z3.is_app(t) and t.decl().kind() == z3.Z3_OP_SEQ_LENGTH and t.arg(0).get_id() in consts:
+            return t.arg(0).get_id()
+        return None
+
+    forced = {}
+    for f in rest:
+        if not (z3.is_app(f) and f.decl().kind() == z3.Z3_OP_EQ):
+            continue
+        a, b = f.arg(0), f.arg(1)
+        la, lb = len_of_const(a), len_of_const(b)
+        if la is not None and lb is not None:
+            parent[find(la)] = find(lb)
+        elif la is not None and z3.is_int_value(b):
+            forced[la] = b.as_long()
+        elif lb is not None and z3.is_int_value(a):
+            forced[lb] = a.as_long()
+        else:
+            for x, y in ((a, b), (b, a)):
+                if x.get_id() in consts and z3.is_app(y) and y.decl().kind() == z3.Z3_OP_SEQ_EMPTY:
+                    forced[x.get_id()] = 0
+    for n in (1, 0, 2):
+        cnt = [0]
+        glen = {}
+        for i, v in forced.items():
+            glen[find(i)] = v
+
+        def explicit(sort, k, depth=0):
+            es = sort.basis()
+            elems = []
+            for _ in range(k):
+                cnt[0] += 1
+                if es.kind() == z3.Z3_SEQ_SORT and depth < 2:
+                    elems.append(explicit(es, n, depth + 1))
+                else:
+                    elems.append(z3.Const(f'bi!e{cnt[0]}', es))
+            if not elems:
+                return z3.Empty(sort)
+            units = [z3.Unit(e) for e in elems]
+            return units[0] if len(units) == 1 else z3.Concat(*units)
+
+        sub = [(c, explicit(c.sort(), min(glen.get(find(i), n), 4))) for i, c in consts.items()]
+        win = max([n] + [min(v, 4) for v in glen.values()]) + 1
+        inst = list(rest)
+        for f, lo, hi in qs:
+            for v in range(-1, win + 1):
+                inst.append(z3.substitute_vars(f.body(), z3.IntVal(v)))
+            inst.append(lo >= -1)
+            inst.append(hi <= win + 1)
+        s = _solver(max(1500, timeout_ms // 3), seed)
+        for g in inst:
+            s.add(z3.simplify(z3.substitute(g, *sub)))
+        r_ = s.check()
+        if os.environ.get('PYVC_DEBUG_BI'):
+            print(f'[bounded-instances] n={n} forced={len(forced)} quantifiers={len(qs)} consts={len(consts)} -> {r_} {s.reason_unknown() if r_ == z3.unknown else ""}', flush=True)
+        if r_ != z3.sat:
+            continue
+        m = s.model()
+        # a model over the original constants: pin every sequence constant to its explicit value
+        s2 = _solver(max(1500, timeout_ms // 3), seed)
+        for g in inst:
+            s2.add(g)
+        for c, v in sub:
+            s2.add(c == z3.simplify(m.eval(v, model_completion=True)))
+        if s2.check() == z3.sat:
+            return s2.model()
+    return None
 
 
 def _seq_syms(v, heap, out, seen, only_structured=False):
